@@ -21,7 +21,7 @@ use dex::{
 use simchild::{Ev, FaultOp, Reaction, SimCfg};
 use watchexec_supervisor::{
 	command::{Command, Program},
-	job::{start_job, CommandState, Job, JobTaskContext, Ticket},
+	job::{start_job, CommandState, Control, Job, JobTaskContext, Ticket},
 	Signal,
 };
 
@@ -90,11 +90,11 @@ fn state_str(ctx: &JobTaskContext<'_>) -> String {
 }
 
 /// Probe, from inside the job task, which high / urgent tickets sent so far are pending.
-fn probe_pending() -> String {
+fn probe_pending(own: Prio) -> String {
 	let tickets: Vec<(usize, Prio, Ticket)> = hs(|h| h.probe_tickets.clone());
 	let mut v = vec![];
 	for (idx, prio, t) in tickets {
-		if !ticket_ready(&t) {
+		if prio > own && !ticket_ready(&t) {
 			v.push(format!("{}{idx}", if prio == Prio::Urgent { "U" } else { "H" }));
 		}
 	}
@@ -133,14 +133,28 @@ fn send_op(job: &Job, sc: &Sc, idx: usize, op: Op, sender: u8, hook_count: &Arc<
 		Op::Run => job.run(move |ctx| {
 			let mut s = state_str(ctx);
 			if probes {
-				s.push_str(&format!(" pending=[{}]", probe_pending()));
+				s.push_str(&format!(" pending=[{}]", probe_pending(Prio::Normal)));
 			}
 			simchild::note("marker", idx as i64, sender as i64, s);
 		}),
+		Op::RunH | Op::RunU => {
+			let own = op.prio();
+			job.verif_control(
+				Control::SyncFunc(Box::new(move |ctx| {
+					let mut s = state_str(ctx);
+					if probes {
+						s.push_str(&format!(" pending=[{}]", probe_pending(own)));
+					}
+					simchild::note("marker", idx as i64, sender as i64, s);
+				})),
+				if own == Prio::High { 1 } else { 2 },
+			)
+		}
+		Op::ContinueRaw => job.control(Control::ContinueTryGracefulRestart),
 		Op::RunAsync => job.run_async(move |ctx| {
 			let mut s = state_str(ctx);
 			if probes {
-				s.push_str(&format!(" pending=[{}]", probe_pending()));
+				s.push_str(&format!(" pending=[{}]", probe_pending(Prio::Normal)));
 			}
 			simchild::note("marker", idx as i64, sender as i64, s);
 			Box::new(async move {
